@@ -46,8 +46,19 @@ func VerifCarry(variant int) {
 		union = "\n\tval :number; // U " + sn + "\n"
 		epilogue = "\n// E " + sn + "\nfunction GetToken(input :string, model:{ValType :ValType, pos :number}) :number { return -1 }\n"
 	}
+	// the snippet inside an action body too (snippets with '$' are left to the action rewriting)
+	inAction := "A " + sn
+	dollar := false
+	for i := 0; i < len(sn); i++ {
+		if sn[i] == '$' {
+			dollar = true
+		}
+	}
+	if dollar {
+		inAction = "A plain"
+	}
 	text := "%{" + prologue + "%}\n%union {" + union + "}\n%token <val> NUM 300\n%type <val> e\n%left '+'\n%start e\n%%\n" +
-		"e : e '+' e { $$ = $1 + $3 }\n  | NUM { $$ = $1 }\n  ;\n%%" + epilogue
+		"e : e '+' e { $$ = $1 + $3 }\n  | NUM { _ = \"" + inAction + "\"; $$ = $1 }\n  ;\n%%" + epilogue
 	utils.PackFlags, utils.ObjectMode = true, false
 	file := "out.txt"
 	if verifIsReplay() {
@@ -80,4 +91,5 @@ func VerifCarry(variant int) {
 	verifAssert(verifContains(out, prologue), "C10: the prologue does not reach the output unchanged (body contains '"+sn+"')")
 	verifAssert(verifContains(out, union), "C10: the %union body does not reach the output unchanged (body contains '"+sn+"')")
 	verifAssert(verifContains(out, epilogue), "C10: the epilogue does not reach the output unchanged (body contains '"+sn+"')")
+	verifAssert(verifContains(out, "_ = \""+inAction+"\";"), "C10: an action body does not reach the output unchanged (body contains '"+inAction+"')")
 }
